@@ -67,6 +67,11 @@ DeepMixes == {[t \in Threads |-> IF t = "t1" THEN Op("close", "s2", NONE) ELSE I
                  c \in {Op("get", "s3", "A")}}
 DeepCloseMixes == {[t \in Threads |-> IF t = "t1" THEN Op("close", "s2", NONE) ELSE b] :
                  b \in {Op("close", "s1", NONE), Op("pclose", "prov", NONE), Op("cancel", "s1", NONE), Op("close", "s3", NONE)}}
+\* two resolutions of one scoped service (one constructs, the other waits for it) and a Close of their scope that runs
+\* through while the construction is in flight: the waiter is woken and refused, never left waiting
+WaiterCloseMixes == {[t \in Threads |-> IF t = "t3" THEN c ELSE Op("get", "s1", "A")] :
+                        c \in {Op("close", "s1", NONE), Op("pclose", "prov", NONE), Op("cancel", "s1", NONE)}}
+WaiterCloseQuick == {[t \in Threads |-> IF t = "t3" THEN Op("close", "s1", NONE) ELSE Op("get", "s1", "A")]}
 PreDeep == {<<"s1", "B">>, <<"s1", "A">>, <<"s2", "B">>, <<"s3", "B">>, <<"s3", "A">>}
 PreNone == {}
 PreAB == {<<"s1", "B">>, <<"s1", "A">>, <<"s2", "B">>, <<"s2", "A">>}
